@@ -32,6 +32,8 @@ NEAR += ["\uff43oncat", "con\uff43at", "\uff4eow", "\uff47eo.distance", "geo.dis
 # the lambda keywords are keywords only at the end of a path; anywhere else `any(` / `all(` start a call of an unknown function
 NEAR += ["any", "all", "ANY", "All", "geo.any", "ns.all", "anything", "allx"]
 NEAR += ["geo." + n for n in REF_FUNCTIONS if "." not in n]      # every bare built-in moved into the geo namespace
+# a namespace whose first segment is spelled like a literal keyword is still a namespace
+NEAR += ["true.f", "false.f", "null.f", "Null.length", "null.x.f", "TRUE.f", "true.length", "nullx.f", "x.true", "x.null.f"]
 NAMES = BUILTINS + sorted(set(NEAR) - set(BUILTINS))
 
 a, b, one = T.I("a"), T.I("b"), T.Int(1)
@@ -129,6 +131,9 @@ def _nameclass(name):
     return "custom-ns"
 
 
+REPEATED = ["a", "b", "a", "c", "a"]     # the same parameter name more than once: every argument is kept, in source order
+
+
 def _named_unit(names):
     acc = Acc()
     K = len(ARG_KINDS)
@@ -138,17 +143,18 @@ def _named_unit(names):
         for n in range(1, 6):
             acc.count("states")
             for r in range(0, K, 3):
-                args = [T.named(pnames[i], ARG_KINDS[(r + i * 7) % K]) for i in range(n)]
-                exp = expected(ident, args)
-                for layout in LAYOUTS:
-                    text = call_text(name, args, layout)
-                    got = observe(text)
-                    acc.count("executions")
-                    acc.count("transitions")
-                    acc.outcome(("named", exp[0], got[0]))
-                    if got != exp:
-                        acc.violation("named:%s:%d:%s->%s" % (_nameclass(name), min(n, 3), exp[0], got[0]),
-                                      {"layer": "named", "text": text, "expected": exp, "observed": got})
+                for pn in (pnames, REPEATED):
+                    args = [T.named(pn[i], ARG_KINDS[(r + i * 7) % K]) for i in range(n)]
+                    exp = expected(ident, args)
+                    for layout in LAYOUTS:
+                        text = call_text(name, args, layout)
+                        got = observe(text)
+                        acc.count("executions")
+                        acc.count("transitions")
+                        acc.outcome(("named", exp[0], got[0]))
+                        if got != exp:
+                            acc.violation("named:%s:%d:%s->%s" % (_nameclass(name), min(n, 3), exp[0], got[0]),
+                                          {"layer": "named", "text": text, "expected": exp, "observed": got})
             # mixed positional/named: not "all positional or all named" -> must be refused by a library error
             for mixed in ("%s(1, p=2)" % name, "%s(p=1, 2)" % name, "%s(p=1, 2, q=3)" % name):
                 got = observe(mixed)
